@@ -221,6 +221,59 @@ def _alias_rule(chk, prog):
         raise AnalysisBroken("only %d functions with a view/destination pair found in buffer.c" % nfn)
 
 
+def _range_rule(chk, prog):
+    """A slice [start, end) names the gaps between elements: both ends range over 0..length and a negative value counts
+    from length + 1 (so -1 is "after the last element").  The start and the end decoder must therefore be the same
+    half-range decoder - an element-index decoder (negative counts from length) is off by one for every negative start."""
+    from jv.linear import linear
+    rule = "C17-RANGE"
+    chk.rule(rule, "slice start and end are decoded by the same half-range decoder: negative v -> length + 1 + v, accepted range [0, length]")
+    tu = prog.tus["capi.c"]
+    decs = {}
+    for name in ("janet_getstartrange", "janet_getendrange"):
+        fn = tu.funcs.get(name)
+        if fn is None:
+            raise AnalysisBroken("%s not found" % name)
+        chk.analysed(fn)
+        callees = set()
+        for r in fn.nodes:
+            if r.k == "return" and r.kids and strip_casts(r.kids[0]).k == "call":
+                callees.add(strip_casts(r.kids[0]).callee)
+        decs[name] = callees
+        chk.instance(rule)
+        if callees == {"janet_gethalfrange"}:
+            chk.ok(rule, "%s decodes through janet_gethalfrange" % name)
+        else:
+            chk.violation(rule, "capi.c", name, "decoder", fn.loc,
+                          "%s decodes an explicit bound through %s instead of janet_gethalfrange: negative bounds are resolved "
+                          "against a different origin than the other end of the slice" % (name, sorted(callees) or "nothing"))
+    fn = tu.funcs.get("janet_gethalfrange")
+    if fn is None:
+        raise AnalysisBroken("janet_gethalfrange not found")
+    chk.analysed(fn)
+    lenp = fn.params[2]["n"]
+    adj = [x for x in fn.nodes if x.k == "asg" and x.op == "+="]
+    chk.instance(rule)
+    ok = False
+    for a in adj:
+        l = linear(a.kids[1])
+        if l is not None and l[0] == {lenp: 1} and l[1] == 1:
+            ok = True
+    if ok:
+        chk.ok(rule, "janet_gethalfrange maps a negative bound v to %s + 1 + v" % lenp)
+    else:
+        chk.violation(rule, "capi.c", fn.name, "negative-origin", (adj[0].loc if adj else fn.loc),
+                      "janet_gethalfrange no longer resolves negative bounds against %s + 1: -1 stops meaning 'the end'" % lenp)
+    chk.instance(rule)
+    rejects = [x for x in fn.nodes if x.k == "bin" and x.op in (">", ">=") and is_ref(strip_casts(x.kids[1]), lenp)]
+    if len(rejects) == 1 and rejects[0].op == ">":
+        chk.ok(rule, "janet_gethalfrange accepts exactly 0..%s" % lenp)
+    else:
+        chk.violation(rule, "capi.c", fn.name, "upper-bound", fn.loc,
+                      "janet_gethalfrange's upper bound test is not `> %s` (found %s): the end position %s itself must be accepted and "
+                      "nothing beyond it" % (lenp, [r.text() for r in rejects], lenp))
+
+
 def run(chk):
     prog = Program.load("default")
     cg = CallGraph(prog)
@@ -228,3 +281,4 @@ def run(chk):
     chk.floor("C17-ARITY", 100)
     _reserve_rule(chk, prog)
     _alias_rule(chk, prog)
+    _range_rule(chk, prog)
